@@ -1129,11 +1129,11 @@ fn gen_lap_run(rng: &mut Rng, sw: &Swarm, leap: &Leap, reset: bool) -> RunScript
 /// races between instructions that neither lock nor allocate. Not deterministic; whatever it
 /// finds is confirmed by repetition.
 pub fn gen_stress_run(rng: &mut Rng, leap: &Leap, reset: bool) -> RunScript {
-  // one run in sixteen is a "batch export": 8-32 threads walk through the same 300-2,600
-  // consecutive lunar months, each from its own offset, eight times over, in one tight loop per
+  // one run in twenty-four is a "batch export": 8-32 threads walk through the same 300-2,600
+  // consecutive lunar months, each from its own offset, two to eight times over, in one tight loop per
   // thread (no harness lock between two requests) — many distinct keys AND real parallelism (a
   // generational or bounded structure rotates while other threads are inside it)
-  if rng.chance(1, 16) {
+  if rng.chance(1, 24) {
     let nthreads = *rng.pick(&[8usize, 16, 32, 32]);
     let len = *rng.pick(&[300usize, 700, 1125, 1500, 2600]);
     let kind = if rng.chance(1, 5) { kind_by_name("LD.new").unwrap() } else { K_LM_FROM_YM };
@@ -1160,7 +1160,7 @@ pub fn gen_stress_run(rng: &mut Rng, leap: &Leap, reset: bool) -> RunScript {
     for _ in 0..nthreads {
       let off = rng.below(len as u64) as usize;
       let qs: Vec<Query> = (0..len).map(|i| months[(off + i) % len].clone()).collect();
-      threads.push(vec![Op::QAlt { qs, times: 8 * len as u64 }]);
+      threads.push(vec![Op::QAlt { qs, times: (8 * len as u64).min(6000).max(2 * len as u64) }]);
     }
     return RunScript { threads, policy: Policy::Os, sched_seed: 0, hash_seed: rng.next_u64() | 1, reset, fault_free: true, alloc_period: 0 };
   }
